@@ -319,6 +319,15 @@ func (m *mstate) runLeaf(n *NodeSpec) (string, string) {
 			tok := fmt.Sprintf("n%dv%de%d", n.ID, v, a)
 			m.emit(MEv{Kind: "exec_start", N: n.ID, V: v, A: a, S1: pdesc})
 			m.during(o)
+			if o.Nested > 0 && m.visits[n.ID] < 8 {
+				// the attempt runs a node itself (possibly this very node object,
+				// re-entrantly) and waits for it: a complete run inside the attempt,
+				// whose outcome does not matter to the attempt (the harness, too,
+				// stops nesting at the eighth visit: shrink candidates may nest without end)
+				fe := m.run.FailEnd
+				m.runNode(o.Nested - 1)
+				m.run.FailEnd = fe
+			}
 			switch o.Fail {
 			case "":
 				edesc = payDesc(o.Pay, tok)
@@ -507,14 +516,12 @@ func (m *mstate) runBatch(n *NodeSpec) (string, string) {
 		}
 		mi := m.itemLane(n, v, i, &vs.Items[i], cfg.Retries, cfg.WaitMs, seq && m.known)
 		mb.Items = append(mb.Items, mi)
-		if ex := vs.Items[i].Exec; len(ex) > 0 && ex[0].Nested > 0 && ex[0].Fail == "" && !m.long {
-			if m.steps++; m.steps > visitCap/4 {
-				m.long = true // (a shrink candidate may nest without end: not a verdict)
-				continue
-			}
+		if ex := vs.Items[i].Exec; len(ex) > 0 && ex[0].Nested > 0 && ex[0].Fail == "" && m.visits[n.ID] < 8 {
 			// the item's exec runs a batch node itself (possibly this very node
 			// object, re-entrantly) and waits for it: a complete run inside the item
+			fe := m.run.FailEnd
 			m.runNode(ex[0].Nested - 1)
+			m.run.FailEnd = fe
 		}
 		if mi.Fails {
 			anyFail++
